@@ -176,6 +176,44 @@ pub fn c12(tier: &str, seed: u64) {
         sample(&[("input", hex(&input)), ("md", md.to_string()), ("runs", runs.len().to_string()), ("unblinded", hex(&runs[0].3)), ("finalized", hex(&fin))]);
       }
     }
+    // freshness across THREADS of one process (clients blind wherever the embedding application runs
+    // them): concurrent threads, and threads started one after the other, must not share blindings
+    if si % 8 == 0 {
+      let input = gen_input(&mut g, input_no);
+      let mut all: Vec<(usize, Vec<u8>, [u8; 32])> = Vec::new();
+      let spawn_batch = |n: usize, input: &Vec<u8>| -> Vec<(Vec<u8>, [u8; 32])> {
+        let hs: Vec<_> = (0..n)
+          .map(|_| {
+            let inp = input.clone();
+            std::thread::spawn(move || {
+              (0..3)
+                .map(|_| {
+                  let (bp, cs) = Client::blind(&inp);
+                  (bp.as_bytes().to_vec(), Scalar::from(cs).to_bytes())
+                })
+                .collect::<Vec<_>>()
+            })
+          })
+          .collect();
+        hs.into_iter().flat_map(|h| h.join().expect("blinding thread")).collect()
+      };
+      for (round, n) in [(0usize, 4usize), (1, 1), (2, 1)] {
+        for (p, r) in spawn_batch(n, &input) {
+          all.push((round, p, r));
+        }
+      }
+      let (bp, cs) = Client::blind(&input);
+      all.push((3, bp.as_bytes().to_vec(), Scalar::from(cs).to_bytes()));
+      for i in 0..all.len() {
+        for j in 0..i {
+          if all[i].1 == all[j].1 || all[i].2 == all[j].2 {
+            fail("blinding_repeated", &[("input", hex(&input)), ("where", format!("threads: batch {} item {} and batch {} item {}", all[j].0, j, all[i].0, i)), ("point", hex(&all[i].1))]);
+          }
+        }
+      }
+      case(true);
+      stat("c12.cross_thread_freshness");
+    }
     // the next server shares a tag with this one now and then
     prev = Some((server, mds));
     if g.chance(1, 2) {
@@ -245,6 +283,40 @@ pub fn c13(tier: &str, seed: u64) {
         fail("honest_proof_rejected", &[("input", hex(&input)), ("md", md.to_string()), ("mds", hex(&mds)), ("panicked", ok.is_err().to_string())]);
       }
       case(true);
+      // completeness in every life-cycle state of a server: a clone, a server that imported this
+      // server's key state over its own (its published key is then the exporter's), and the server
+      // after punctures of other tags - each verifies against the key IT publishes
+      {
+        use ppoprf::ppoprf::ServerKeyState;
+        let mut variants: Vec<(&str, Server)> = vec![("clone", server.clone())];
+        let bytes = bincode::serialize(&server.get_private_key()).expect("serialize key state");
+        let st: ServerKeyState = bincode::deserialize(&bytes).expect("deserialize key state");
+        let other_mds = if g.chance(1, 2) { mds.clone() } else { vec![1, 2, 3, 200] };
+        let mut importer = Server::new(other_mds).expect("Server::new");
+        importer.set_private_key(st);
+        variants.push(("importer_after_key_sync", importer));
+        if let Some(&md2) = tags.iter().find(|&&t| t != md) {
+          let mut p = server.clone();
+          if p.puncture(md2).is_ok() {
+            variants.push(("after_puncture_of_another_tag", p));
+          }
+        }
+        for (what, srv) in variants {
+          let vpk = srv.get_public_key();
+          let r = std::panic::catch_unwind(std::panic::AssertUnwindSafe(|| {
+            let (bp2, _) = Client::blind(&input);
+            match srv.eval(&bp2, md, true) {
+              Ok(ev2) => Client::verify(&vpk, &bp2, &ev2, md) && Client::verify(&pk, &bp2, &ev2, md),
+              Err(_) => false,
+            }
+          }));
+          if r.as_ref().ok() != Some(&true) {
+            fail("honest_proof_rejected", &[("server_state", what.to_string()), ("input", hex(&input)), ("md", md.to_string()), ("mds", hex(&mds)), ("panicked", r.is_err().to_string())]);
+          }
+          case(true);
+          stat(&format!("c13.state.{}", what));
+        }
+      }
       // ... after a JSON round trip of the evaluation and with the reloaded public key
       let js = serde_json::to_string(&ev).unwrap();
       match serde_json::from_str::<Evaluation>(&js) {
